@@ -696,8 +696,8 @@ fn has_awaited_send(stmts: &[syn::Stmt], fns: &BTreeMap<String, syn::Block>, dep
     v.found
 }
 
-/// every place where the guard of the global topics lock is bound by a `let` (`… .lock().await` / `.write().await` /
-/// `.read().await` on something named `topics`): the statements that follow it in its block, i.e. the guard's scope
+/// every place where the guard of an async lock is bound by a `let` (`… .lock().await` / `.write().await` /
+/// `.read().await`): the statements that follow it in its block, i.e. the guard's scope
 fn lock_scopes(block: &syn::Block) -> Vec<Vec<syn::Stmt>> {
     struct F(Vec<Vec<syn::Stmt>>);
     impl<'ast> syn::visit::Visit<'ast> for F {
@@ -707,8 +707,10 @@ fn lock_scopes(block: &syn::Block) -> Vec<Vec<syn::Stmt>> {
                     if let Some(init) = &l.init {
                         let e = &init.expr;
                         let t = quote::quote!(#e).to_string();
-                        let takes = ["lock ()", "write ()", "read ()"].iter().any(|k| t.starts_with(&format!("topics . {k}")) || t.starts_with(&format!("self . topics . {k}")));
-                        if takes && t.trim_end().ends_with(". await") { self.0.push(b.stmts[i + 1..].to_vec()); }
+                        // any async lock whose guard is bound here (the global topics lock, or whatever else a
+                        // registration is made to queue behind)
+                        let takes = ["lock ()", "write ()", "read ()"].iter().any(|k| t.trim_end().ends_with(&format!(". {k} . await")));
+                        if takes { self.0.push(b.stmts[i + 1..].to_vec()); }
                     }
                 }
             }
@@ -757,7 +759,29 @@ fn gen_server(repo: &Path, g: &mut Gen) -> R<()> {
     for (name, b) in fns.iter() { if name != "shutdown" && name != "listen" { scopes.extend(lock_scopes(b)); } }
     if scopes.is_empty() { return shape(sv_rel, "no function of the file binds a guard of the `topics` lock in a let statement"); }
     let held = scopes.iter().any(|sc| has_awaited_send(sc, &fns, 3));
+    // the connection's accept loop (the function that calls `accept_bi()`): is every `handle_stream(…)` call inside a
+    // `spawn(…)`, i.e. does a registration that has to wait leave the loop free to accept the connection's next stream?
+    let spawned = {
+        let (name, acc) = fns.iter().find(|(_, b)| quote::quote!(#b).to_string().contains("accept_bi ()"))
+            .ok_or_else(|| Shape(format!("{sv_rel}: no function calls accept_bi()")))?;
+        let _ = name;
+        struct V { depth: usize, inside: usize, outside: usize }
+        impl<'ast> syn::visit::Visit<'ast> for V {
+            fn visit_expr_call(&mut self, c: &'ast syn::ExprCall) {
+                let f = &c.func;
+                let ft = quote::quote!(#f).to_string();
+                if ft.ends_with("spawn") { self.depth += 1; syn::visit::visit_expr_call(self, c); self.depth -= 1; return; }
+                if ft.ends_with("handle_stream") { if self.depth > 0 { self.inside += 1 } else { self.outside += 1 } }
+                syn::visit::visit_expr_call(self, c);
+            }
+        }
+        let mut v = V { depth: 0, inside: 0, outside: 0 };
+        syn::visit::Visit::visit_block(&mut v, acc);
+        if v.inside + v.outside == 0 { return shape(sv_rel, "the accept loop does not call handle_stream"); }
+        v.outside == 0
+    };
     let mut s = String::new();
+    let _ = writeln!(s, "/-- {sv_rel}: the connection's accept loop hands every stream to a task of its own (`spawn(handle_stream(…))`) -/\ndef streamsHandledInOwnTasks : Bool := {spawned}");
     let _ = writeln!(s, "/-- `SOCK_CHANNEL_SIZE` of the pub/sub and request/reply routers -/\ndef pubsubChannelSize : Nat := {ps_size}\ndef reqrepChannelSize : Nat := {rr_size}");
     let _ = writeln!(s, "/-- does `handle_stream` await a channel `send` while the guard of the global `topics` lock is in scope? -/\ndef lockHeldAcrossSend : Bool := {}", held);
     for name in ["INVALID_TOPIC_NAME", "REPLIER_ALREADY_BOUND", "STREAM_CLOSED_PREMATURELY", "UNKNOWN_ERROR"] {
